@@ -19,16 +19,17 @@ META = {
     "re-checked by decide; differential correspondence hex-for-hex with a Lean BLAKE2b",
     "text": "Lean theorems for values of any size and depth, with the digest function H an arbitrary function that returns "
     "16 bytes: (order) two values with the same content whose sets were iterated and whose dicts were filled in any other "
-    "order get the same hash — unconditionally for sets and frozensets, which are ordered by the digests of their elements, "
-    "and for dicts provided the keys are drawn from one class that Python's < orders totally "
+    "order get the same hash — sets and frozensets are ordered by the digests of their elements, dict items by the byte "
+    "representation of their keys; the only hypothesis left is well-formedness (the keys of one dict are pairwise different) "
     "(C08_order_indep; C08_sorted_perm: sorted() of a permutation is the same list); (discrimination) equal "
     "hashes of two values of the grammar G0 imply that the values have the same type and content up to set/dict order, "
     "or else exhibit two different byte strings among their sub-encodings with the same H-image (C08_discriminates); "
     "(context) hash_single with its id-keyed memo returns, for every value without reference cycles whose live objects "
     "have unique ids, the hash the value gets alone, whatever was hashed before in the same Cache (C08_context_free).  "
     "Witness theorem for what the tree does not satisfy: a member of a reference cycle hashed after another member gets "
-    "another hash (C08_witness_cycle, D66).  Repaired defect D6 (sets ordered by value): regression theorems "
-    "C08_regression_set_of_sets / C08_regression_unorderable_set, the old algorithm is documented by C08_old_sorted_by_value.  "
+    "another hash (C08_witness_cycle, D66).  Repaired defects D6 / D68 (sets and mapping keys ordered by value): regression "
+    "theorems C08_regression_set_of_sets / C08_regression_unorderable_set / C08_regression_unorderable_keys, the old algorithms "
+    "are documented by C08_old_sorted_by_value / C08_old_keys_sorted_by_value.  "
     "The tag literals come from pydra/utils/hash.py on every run "
     "(Gen/HashLits.lean; heads_prefix_free / len_seps_ok / words_ok / sources_ok are closed by decide).  The model is tied to the code by hashing generated "
     "values and near-miss pairs with the real hash_function and with the model instantiated with a Lean BLAKE2b "
@@ -44,7 +45,7 @@ META = {
     "scalars of 9 dtypes, 11 shapes; shared sub-objects), or (context values, value) hashed with one Cache; distinct by "
     "canonical JSON of the pair and aspect; non-trivial = at least one of the two values is not a bare scalar",
     "assumptions": [
-        "the content of a function is its parameter list and body (name, annotations are not content; closure cells are C06's subject); "
+        "a lambda, like a function without retrievable source, is identified by its code object; the content of a function is its parameter list and body (name, annotations are not content; closure cells are C06's subject); "
         "a function without retrievable source is identified by its code object, name included",
         "attrs attributes declared eq=False are not content (documented in bytes_repr)",
         "floats are compared by bit pattern (0.0 and -0.0 are different contents); NaN does not occur inside sets or as dict key",
@@ -70,6 +71,8 @@ OBLIGATIONS = [
         "C08_regression_set_of_sets",
         "C08_regression_unorderable_set",
         "C08_old_sorted_by_value",
+        "C08_regression_unorderable_keys",
+        "C08_old_keys_sorted_by_value",
         "C08_witness_cycle",
         "heads_prefix_free",
         "len_seps_ok",
@@ -109,27 +112,9 @@ def _strip(s, fn):
     return go(s)
 
 
-def _lambda(n):
-    if n["k"] == "func" and n.get("lambda"):
-        return "<lambda>"
-    return None
-
-
 def defect_of_pair(a, b, ha, hb, same_expected) -> str | None:
-    """Which known finding explains that the pair (a, b) violates the property (None = unexplained)."""
-    ua, ub = H.unordered_elements(a), H.unordered_elements(b)
-    errs = [h for h in (ha, hb) if h.startswith("!")]
-    if errs:
-        # only the TypeError raised by sorted(mapping) on dict keys that < does not compare is D68
-        for u, h in ((ua, ha), (ub, hb)):
-            if h.startswith("!") and not (h == "!TypeError" and u == "typeerror"):
-                return None
-        return "D68"
-    if same_expected:
-        return None  # equal content, different hashes: nothing listed explains that
-    # different content, equal hashes
-    if H.canon_key(_strip(a, _lambda)) == H.canon_key(_strip(b, _lambda)):
-        return "D67"
+    """Which known finding explains that the pair (a, b) violates the property: none is listed for pairs any more
+    (D6, D65, D67, D68 are repaired), so every such pair is a violation."""
     return None
 
 
@@ -347,7 +332,7 @@ def correspondence(ctx):
     n_pairs, n_ctx = ctx.pick(150, 2500), ctx.pick(40, 600)
     batch = 400
     todo = [gen_pair(ctx.rng) for _ in range(n_pairs)]
-    # regressions of D6 / D65 and the D68 region are visited on purpose in a small share of the cases
+    # regressions of D6 / D65 / D67 / D68 are visited on purpose in a small share of the cases
     for _ in range(ctx.pick(6, 60)):
         a, b = ctx.rng.sample(H.PEP585_EXPRS, 2)
         todo.append({"a": {"k": "list", "xs": [{"k": "type", "v": a}]}, "b": {"k": "list", "xs": [{"k": "type", "v": b}]}, "same": False, "aspect": "type-expr"})
@@ -356,6 +341,9 @@ def correspondence(ctx):
         todo.append({"a": {"k": "set", "xs": xs}, "b": {"k": "set", "xs": xs[::-1]}, "same": True, "aspect": "same:set-build-order"})
         items = [[H.gen_key(ctx.rng, k1), {"k": "int", "v": "1"}], [H.gen_key(ctx.rng, k2), {"k": "int", "v": "2"}]]
         todo.append({"a": {"k": "dict", "items": items}, "b": {"k": "dict", "items": items[::-1]}, "same": True, "aspect": "same:dict-insertion-order"})
+        b1, b2 = ctx.rng.sample(["x * 2", "x * 3", "x + 1"], 2)
+        lam = {"k": "func", "name": "f", "params": ["x"], "lambda": True}
+        todo.append({"a": {**lam, "body": [b1]}, "b": {**lam, "body": [b2]}, "same": False, "aspect": "function:lambda-body"})
     for i in range(0, len(todo), batch):
         run_pairs(ctx, todo[i : i + batch], moddir)
     cs = [gen_ctx(ctx.rng) for _ in range(n_ctx)]
